@@ -968,6 +968,10 @@ mutant('P2-facade-set-balance-writes-zero', ['C11'], [
 mutant('N8-next-does-not-validate-executed-claims', ['C05', 'C02'], [
     (S, "                    TransactionStatus::Executed | TransactionStatus::Unconfirmed => {", "                    TransactionStatus::Unconfirmed => {"),
 ], ['|N8|'])
+mutant('D2-created-account-publishes-reset-marker-last', ['C08'], [
+    ('src/incarnation_db.rs', "            if created {\n                self.publish_storage_reset(*address, estimate, &mut write_set);\n            }\n\n            let account_snapshot", "            let account_snapshot"),
+    ('src/incarnation_db.rs', "                    &mut write_set,\n                );\n            }\n        }\n\n        write_set", "                    &mut write_set,\n                );\n            }\n            if created {\n                self.publish_storage_reset(*address, estimate, &mut write_set);\n            }\n        }\n\n        write_set"),
+], ['|D2|'])
 mutant('LC5-validate-stale-test-inverted', ['C05'], [(S, """        if tx_state.incarnation != incarnation {
             self.abort(AbortReason::ParallelError {
                 txid,
